@@ -29,9 +29,9 @@ func (k Keeper) RegisterCoin(ctx sdk.Context, coinMetadata banktypes.Metadata) (
 		return nil, sdkerrors.Wrapf(types.ErrEVMDenom, "cannot register the EVM denomination %s", evmDenom)
 	}
 
-	// check if the denomination already registered
-	if k.IsDenomRegistered(ctx, coinMetadata.Name) {
-		return nil, sdkerrors.Wrapf(types.ErrTokenPairAlreadyExists, "coin denomination already registered: %s", coinMetadata.Name)
+	// check if the denomination already registered (the registry is indexed by the base denomination)
+	if k.IsDenomRegistered(ctx, coinMetadata.Base) {
+		return nil, sdkerrors.Wrapf(types.ErrTokenPairAlreadyExists, "coin denomination already registered: %s", coinMetadata.Base)
 	}
 
 	// check if the coin exists by ensuring the supply is set
@@ -76,9 +76,9 @@ func (k Keeper) AddCoin(ctx sdk.Context, coinMetadata banktypes.Metadata, contra
 		return nil, sdkerrors.Wrapf(types.ErrEVMDenom, "cannot register the EVM denomination %s", evmDenom)
 	}
 
-	// check if the denomination already registered
-	if k.IsDenomRegistered(ctx, coinMetadata.Name) {
-		return nil, sdkerrors.Wrapf(types.ErrTokenPairAlreadyExists, "coin denomination already registered: %s", coinMetadata.Name)
+	// check if the denomination already registered (the registry is indexed by the base denomination)
+	if k.IsDenomRegistered(ctx, coinMetadata.Base) {
+		return nil, sdkerrors.Wrapf(types.ErrTokenPairAlreadyExists, "coin denomination already registered: %s", coinMetadata.Base)
 	}
 
 	// check if the coin exists by ensuring the supply is set
